@@ -163,6 +163,23 @@ Proof.
   split; vm_compute; repeat split; reflexivity.
 Qed.
 
+(* ---- source-text tie for the recursive pass (gen/SrcPass.v: ForwardScheduler.__forward_pass / BackwardScheduler.__backward_pass translated from schedule.py on every run;
+   Sched/SrcPassEquivF.v / SrcPassEquivB.v relates it to the model's pass for every input, Sched/SrcPassProps.v transports the theorems):
+   what follows is about the TRANSLATED SOURCE called once per root as calc does ([src_roots_fold]) after calc's pre-checks. ---- *)
+From PJ Require Import gen.SrcPass Sched.SrcPassRel Sched.SrcPassEquivF Sched.SrcPassEquivB Sched.SrcPassProps.
+
+Theorem C07_src_forward_pass : forall cfg w ds l cl, isolated_ok w = true -> no_future_ends w (now cfg) = true ->
+  src_roots_fold src_fwd_pass cfg w (roots w) = Ok (ds, l, cl) ->
+  WFin w -> cap_nonneg cfg -> forall t, k_ext (gett w t) = false ->
+  c07_task_st w (ds_start ds) (ds_end ds) (ds_est ds) (ds_spent ds) t.
+Proof. exact src_fwd_rollups. Qed.
+
+Theorem C07_src_backward_pass : forall cfg w ds l cl, isolated_ok w = true ->
+  src_roots_fold src_bwd_pass cfg w (rev (roots w)) = Ok (ds, l, cl) ->
+  WFin w -> cap_nonneg cfg -> forall t, k_ext (gett w t) = false ->
+  c07_task_st w (ds_start ds) (ds_end ds) (ds_est ds) (ds_spent ds) t.
+Proof. exact src_bwd_rollups. Qed.
+
 Print Assumptions C07_forward.
 Print Assumptions C07_backward.
 Print Assumptions C07_order_forward.
@@ -179,3 +196,5 @@ Print Assumptions C07_forward_passes_oracle.
 Print Assumptions C07_backward_passes_oracle.
 Print Assumptions C07_model_passes_case_bits.
 Print Assumptions C07_example.
+Print Assumptions C07_src_forward_pass.
+Print Assumptions C07_src_backward_pass.
